@@ -1,6 +1,7 @@
 import Scion.Model.Pktcls
 import Scion.Model.PktclsSyntax
 import Scion.Proofs.Pktcls
+import Scion.Proofs.PktclsLex
 /-!
 # C43 — Traffic-class expressions evaluate as written and survive printing
 
@@ -119,18 +120,28 @@ theorem parsed_wf (ts : List Tok) (e : Cond) (h : parse ts = some e) : e.wf = tr
 theorem parse_print (e : Cond) (h : e.wf = true) : parse (print e) = some e :=
   Proofs.Pktcls.parse_print e h
 
+/-- the lexer inverts the rendering of a printed well-formed tree: the text `String()` produces
+lexes back to exactly the printed tokens (maximal munch never merges or splits them) -/
+theorem lex_render_print (e : Cond) (h : e.wf = true) : lex (render (print e)) = print e :=
+  Proofs.PktclsLex.lex_render_print e h
+
 /-- **Round-trip clause of C43, full statement**: on the text level, with the lexer. -/
 def TextRoundTrip : Prop :=
   ∀ (s : List Char) (e : Cond), parse (lex s) = some e →
     ∃ e', parse (lex (render (print e))) = some e' ∧ ∀ p, eval e' p = eval e p
 
-/-- **Round-trip clause of C43 on the token level**: printing a parsed expression and parsing
-the tokens again yields the same expression, hence the same value on every packet.
-Partial with respect to `TextRoundTrip`: what is missing is `lex (render ts) = ts` for printed
-token lists (maximal-munch lexing of the rendered text) and the ANTLR-generated lexer/parser
-themselves; both are tied by T1 (`harness/cmd/pktcls`: real `BuildClassTree` vs `parse ∘ lex`,
-real `String()` vs `render ∘ print`, on every generated expression). -/
-theorem reparse_same_value_partial (ts : List Tok) (e : Cond) (h : parse ts = some e) :
+/-- **Round-trip clause of C43**: an expression parsed from any text, printed and parsed again
+(lexer included) is the same expression, hence has the same value on every packet.  `lex`/`parse`
+are the Lean lexer and parser; the ANTLR-generated ones are tied to them by T1 on every generated
+input (`harness/cmd/pktcls`: real `BuildClassTree` vs `parse ∘ lex`, real `String()` vs
+`render ∘ print`). -/
+theorem text_round_trip : TextRoundTrip := by
+  intro s e h
+  have hw := parsed_wf (lex s) e h
+  exact ⟨e, by rw [lex_render_print e hw]; exact parse_print e hw, fun _ => rfl⟩
+
+/-- the same on the token level -/
+theorem reparse_same_value (ts : List Tok) (e : Cond) (h : parse ts = some e) :
     ∃ e', parse (print e) = some e' ∧ ∀ p, eval e' p = eval e p :=
   ⟨e, parse_print e (parsed_wf ts e h), fun _ => rfl⟩
 
@@ -160,6 +171,8 @@ example : eval ex udp = true := by decide
 example : eval ex (.v4 { src := 1, dst := 2, tos := 0, proto := 17, frag := false, payload := [] })
     = false := by decide
 example : parse (print ex) = some ex := parse_print ex (by decide)
+example : parse (lex (render (print ex))) = some ex := by
+  rw [lex_render_print ex (by decide)]; exact parse_print ex (by decide)
 example : parse [.kAny, .lpar, .kDscp, .eq0x, .digits 10, .comma, .kSrcport, .eq, .digits 80, .rpar]
     = some (.any [.dscp 16, .sport 80 80]) := by rfl
 example : parse [.kAny, .lpar, .rpar] = none := by rfl
